@@ -932,6 +932,7 @@ class VM:
             from mirparse import parse_operand
             fv = self.operand(frame, parse_operand(func))
             return self.call_value(fv, args)
+        func = self.normalize_assoc(func)
         cal = Callee(func)
         cal.dest_ty = dest_ty
         cal.env = env
@@ -957,6 +958,25 @@ class VM:
             if r is not NotImplemented:
                 return r
         raise Unmodelled("no semantics for callee `%s`" % func)
+
+    _assoc_re = re.compile(r'<([A-Za-z_][\w:]*(?:<[^<>]*>)?) as ([A-Za-z_][\w:]*)(<[^<>]*>)?>::([A-Z]\w*)')
+
+    def normalize_assoc(self, func):
+        """replace projections `<T as Trait<..>>::Assoc` by the associated type the crate's impl declares"""
+        table = self.prog.decls.assoc_types
+        if not table or ' as ' not in func:
+            return func
+        for _ in range(4):
+            changed = False
+            for m in list(self._assoc_re.finditer(func)):
+                key = (base_name(m.group(1)), base_name(m.group(2)), m.group(4))
+                if key in table:
+                    func = func[:m.start()] + table[key] + func[m.end():]
+                    changed = True
+                    break
+            if not changed:
+                break
+        return func
 
     def adapt_args(self, fn, args):
         return args
